@@ -142,6 +142,17 @@ fn main() {
                 writeln!(out, "{}", text::parse_event(c)).unwrap();
             }
         }
+        // lpsimplex --cases F : LP -> standard form -> two-phase start -> steps (C14)
+        "lpsimplex" => {
+            let cases = read_cases(&arg(&args, "--cases").expect("--cases"));
+            for c in &cases {
+                let mut evs = vec![];
+                simplex::lp_path_events(c, &mut evs);
+                for ev in evs {
+                    writeln!(out, "{}", ev).unwrap();
+                }
+            }
+        }
         _ => {
             eprintln!("usage: rv <lin> ...");
             std::process::exit(2);
